@@ -38,6 +38,24 @@ theorem doe_decomp (doe : Int) (h0 : 0 ≤ doe) (h1 : doe < 146097) :
   · exact ⟨b, q, 3, 365, hb, hq, by omega, by omega, by omega, by omega⟩
   · exact ⟨b, q, (r - 1461 * q) / 365, (r - 1461 * q) % 365, hb, hq, by omega, by omega, by omega, by omega⟩
 
+/-- Hinnant's year-of-era formula -/
+def yoeOf (doe : Int) : Int := (doe - doe / 1460 + doe / 36524 - doe / 146096) / 365
+
+/-- the last steps of `civilFromDays`: month and day from the day of the March-based year -/
+def civilOf (era yoe doy : Int) : Int × Int × Int :=
+  (if (if (5 * doy + 2) / 153 < 10 then (5 * doy + 2) / 153 + 3 else (5 * doy + 2) / 153 - 9) ≤ 2
+     then yoe + era * 400 + 1 else yoe + era * 400,
+   if (5 * doy + 2) / 153 < 10 then (5 * doy + 2) / 153 + 3 else (5 * doy + 2) / 153 - 9,
+   doy - (153 * ((5 * doy + 2) / 153) + 2) / 5 + 1)
+
+theorem civilFromDays_eq (z : Int) :
+    civilFromDays z =
+      civilOf ((z + 719468) / 146097) (yoeOf (z + 719468 - (z + 719468) / 146097 * 146097))
+        (z + 719468 - (z + 719468) / 146097 * 146097 -
+          (365 * yoeOf (z + 719468 - (z + 719468) / 146097 * 146097) +
+            yoeOf (z + 719468 - (z + 719468) / 146097 * 146097) / 4 -
+            yoeOf (z + 719468 - (z + 719468) / 146097 * 146097) / 100)) := rfl
+
 /-- the shape of `civilFromDays z` in terms of the decomposition -/
 theorem civil_core (z : Int) :
     ∃ era b q k doy mp : Int, (0 ≤ b ∧ b ≤ 3) ∧ (0 ≤ q ∧ q ≤ 24) ∧ (0 ≤ k ∧ k ≤ 3) ∧ (0 ≤ doy ∧ doy ≤ 365) ∧
@@ -53,13 +71,16 @@ theorem civil_core (z : Int) :
   have hd1 : (z + 719468) - (z + 719468) / 146097 * 146097 < 146097 := by omega
   obtain ⟨b, q, k, doy, hb, hq, hk, hd, hl, he⟩ := doe_decomp _ hd0 hd1
   refine ⟨(z + 719468) / 146097, b, q, k, doy, (5 * doy + 2) / 153, hb, hq, hk, hd, hl, by omega, rfl, ?_⟩
-  have hy := yoe_formula b q k doy hb hq hk hd hl
-  unfold civilFromDays
-  simp only
-  rw [he, hy]
+  have hy : yoeOf (36524 * b + 1461 * q + 365 * k + doy) = 100 * b + 4 * q + k :=
+    yoe_formula b q k doy hb hq hk hd hl
+  rw [civilFromDays_eq, he, hy]
+  have hY4 : (100 * b + 4 * q + k) / 4 = 25 * b + q := by omega
+  have hY100 : (100 * b + 4 * q + k) / 100 = b := by omega
   have hdoy : 36524 * b + 1461 * q + 365 * k + doy -
-      (365 * (100 * b + 4 * q + k) + (100 * b + 4 * q + k) / 4 - (100 * b + 4 * q + k) / 100) = doy := by omega
+      (365 * (100 * b + 4 * q + k) + (100 * b + 4 * q + k) / 4 - (100 * b + 4 * q + k) / 100) = doy := by
+    rw [hY4, hY100]; omega
   rw [hdoy]
+  rfl
 
 theorem mp_cases {doy : Int} (h : 0 ≤ doy ∧ doy ≤ 365) :
     let mp := (5 * doy + 2) / 153
@@ -76,7 +97,7 @@ theorem days_civil (z : Int) :
   rw [← hmp] at hcases
   unfold daysFromCivil
   simp only
-  rcases hcases with h | h | h | h | h | h | h | h | h | h | h | h <;> subst h <;> simp only [] <;> omega
+  rcases hcases with h | h | h | h | h | h | h | h | h | h | h | h <;> subst h <;> simp <;> omega
 
 /-- the leap-year test in terms of the decomposition of the *March-based* year `100b+4q+k (+ 400 era)`:
 the civil year containing its January/February is that year + 1 -/
@@ -96,89 +117,72 @@ theorem civil_valid (z : Int) :
   have hleap := isLeap_succ_iff era b q k hb hq hk
   unfold ValidDate daysIn
   simp only
-  rcases hcases with h | h | h | h | h | h | h | h | h | h | h | h <;> subst h
-  all_goals
-    first
-    | (simp only []; omega)
-    | (by_cases hL : k = 3 ∧ (q < 24 ∨ b = 3)
-       · have hl1 := hleap.mpr hL
-         simp only [] at hl1 ⊢
-         simp only [hl1]
-         omega
-       · have hl1 : isLeap (100 * b + 4 * q + k + era * 400 + 1) = false := by
-           cases hh : isLeap (100 * b + 4 * q + k + era * 400 + 1) with
-           | false => rfl
-           | true => exact absurd (hleap.mp hh) hL
-         simp only [] at hl1 ⊢
-         simp only [hl1]
-         omega)
+  by_cases hL : k = 3 ∧ (q < 24 ∨ b = 3)
+  · have hl1 := hleap.mpr hL
+    rcases hcases with h | h | h | h | h | h | h | h | h | h | h | h <;> subst h <;> simp [hl1] <;> omega
+  · have hl1 : isLeap (100 * b + 4 * q + k + era * 400 + 1) = false := by
+      cases hh : isLeap (100 * b + 4 * q + k + era * 400 + 1) with
+      | false => rfl
+      | true => exact absurd (hleap.mp hh) hL
+    rcases hcases with h | h | h | h | h | h | h | h | h | h | h | h <;> subst h <;> simp [hl1] <;> omega
 
 /-- `civilFromDays (daysFromCivil y m d) = (y, m, d)` for every valid calendar date -/
 theorem civil_days (y m d : Int) (h : ValidDate y m d) : civilFromDays (daysFromCivil y m d) = (y, m, d) := by
   obtain ⟨hm1, hm12, hd1, hdn⟩ := h
-  -- March-based year, its era and year of era
-  generalize hy' : (if m ≤ 2 then y - 1 else y) = y' at *
-  have hyoe0 : 0 ≤ y' - y' / 400 * 400 := by omega
-  have hyoe1 : y' - y' / 400 * 400 ≤ 399 := by omega
-  generalize hera : y' / 400 = era at *
-  generalize hyoe : y' - era * 400 = yoe at *
-  -- decomposition of the year of era
-  obtain ⟨b, q, k, hb, hq, hk, hyd⟩ : ∃ b q k : Int, (0 ≤ b ∧ b ≤ 3) ∧ (0 ≤ q ∧ q ≤ 24) ∧ (0 ≤ k ∧ k ≤ 3) ∧
-      yoe = 100 * b + 4 * q + k :=
-    ⟨yoe / 100, yoe % 100 / 4, yoe % 4, by omega, by omega, by omega, by omega⟩
-  have hleap := isLeap_succ_iff era b q k hb hq hk
-  -- day of the March-based year
-  generalize hmp : (m + 9) % 12 = mp at *
-  generalize hdoy : (153 * mp + 2) / 5 + d - 1 = doy at *
-  have hmpc : mp = 0 ∨ mp = 1 ∨ mp = 2 ∨ mp = 3 ∨ mp = 4 ∨ mp = 5 ∨ mp = 6 ∨ mp = 7 ∨ mp = 8 ∨ mp = 9 ∨ mp = 10 ∨ mp = 11 := by
+  have hmv : m = 1 ∨ m = 2 ∨ m = 3 ∨ m = 4 ∨ m = 5 ∨ m = 6 ∨ m = 7 ∨ m = 8 ∨ m = 9 ∨ m = 10 ∨ m = 11 ∨ m = 12 := by
     omega
+  -- March-based year, its era and year of era, decomposed
+  obtain ⟨y', hy'⟩ : ∃ y', y' = if m ≤ 2 then y - 1 else y := ⟨_, rfl⟩
+  obtain ⟨era, hera⟩ : ∃ era, era = y' / 400 := ⟨_, rfl⟩
+  obtain ⟨b, q, k, hb, hq, hk, hyd⟩ : ∃ b q k : Int, (0 ≤ b ∧ b ≤ 3) ∧ (0 ≤ q ∧ q ≤ 24) ∧ (0 ≤ k ∧ k ≤ 3) ∧
+      y' - era * 400 = 100 * b + 4 * q + k :=
+    ⟨(y' - era * 400) / 100, (y' - era * 400) % 100 / 4, (y' - era * 400) % 4,
+      by omega, by omega, by omega, by omega⟩
+  have hleap := isLeap_succ_iff era b q k hb hq hk
+  obtain ⟨mp, hmp⟩ : ∃ mp, mp = (m + 9) % 12 := ⟨_, rfl⟩
+  obtain ⟨doy, hdoy⟩ : ∃ doy, doy = (153 * mp + 2) / 5 + d - 1 := ⟨_, rfl⟩
   -- bounds on doy from the validity of the day
-  have hdoyb : (0 ≤ doy ∧ doy ≤ 365) ∧ (doy = 365 → k = 3 ∧ (q < 24 ∨ b = 3)) ∧ (5 * doy + 2) / 153 = mp := by
-    unfold daysIn at hdn
-    by_cases hL : k = 3 ∧ (q < 24 ∨ b = 3)
-    · have hl1 := hleap.mpr hL
-      rcases hmpc with h | h | h | h | h | h | h | h | h | h | h | h <;> subst h <;>
-        (have hmv : m = 3 ∨ m = 4 ∨ m = 5 ∨ m = 6 ∨ m = 7 ∨ m = 8 ∨ m = 9 ∨ m = 10 ∨ m = 11 ∨ m = 12 ∨ m = 1 ∨ m = 2 := by omega) <;>
-        rcases hmv with h | h | h | h | h | h | h | h | h | h | h | h <;> subst h <;>
-        first
-        | omega
-        | (have hyy : y = 100 * b + 4 * q + k + era * 400 + 1 := by omega
-           rw [hyy, hl1] at hdn
-           simp only [] at hdn
-           omega)
-        | (simp only [] at hdn; omega)
-    · have hl1 : isLeap (100 * b + 4 * q + k + era * 400 + 1) = false := by
-        cases hh : isLeap (100 * b + 4 * q + k + era * 400 + 1) with
-        | false => rfl
-        | true => exact absurd (hleap.mp hh) hL
-      rcases hmpc with h | h | h | h | h | h | h | h | h | h | h | h <;> subst h <;>
-        (have hmv : m = 3 ∨ m = 4 ∨ m = 5 ∨ m = 6 ∨ m = 7 ∨ m = 8 ∨ m = 9 ∨ m = 10 ∨ m = 11 ∨ m = 12 ∨ m = 1 ∨ m = 2 := by omega) <;>
-        rcases hmv with h | h | h | h | h | h | h | h | h | h | h | h <;> subst h <;>
-        first
-        | omega
-        | (have hyy : y = 100 * b + 4 * q + k + era * 400 + 1 := by omega
-           rw [hyy, hl1] at hdn
-           simp only [] at hdn
-           omega)
-        | (simp only [] at hdn; omega)
-  obtain ⟨hdb, hdl, hmpe⟩ := hdoyb
-  -- now run civilFromDays on the day number
+  have hA : (0 ≤ doy ∧ doy ≤ 365) ∧ (doy = 365 → k = 3 ∧ (q < 24 ∨ b = 3)) ∧ (5 * doy + 2) / 153 = mp := by
+    by_cases hm2 : m = 2
+    · subst hm2
+      have hyy : y = 100 * b + 4 * q + k + era * 400 + 1 := by omega
+      unfold daysIn at hdn
+      rw [if_pos rfl, hyy] at hdn
+      by_cases hL : k = 3 ∧ (q < 24 ∨ b = 3)
+      · rw [hleap.mpr hL] at hdn
+        simp only [if_true] at hdn
+        omega
+      · have hl1 : isLeap (100 * b + 4 * q + k + era * 400 + 1) = false := by
+          cases hh : isLeap (100 * b + 4 * q + k + era * 400 + 1) with
+          | false => rfl
+          | true => exact absurd (hleap.mp hh) hL
+        rw [hl1] at hdn
+        simp only [Bool.false_eq_true, if_false] at hdn
+        omega
+    · have hdn' : d ≤ (if m = 4 ∨ m = 6 ∨ m = 9 ∨ m = 11 then 30 else 31) := by
+        unfold daysIn at hdn; rw [if_neg hm2] at hdn; exact hdn
+      rcases hmv with h | h | h | h | h | h | h | h | h | h | h | h <;> subst h <;> simp at hdn' <;> omega
+  obtain ⟨hdb, hdl, hmpe⟩ := hA
   have hdays : daysFromCivil y m d = era * 146097 + (36524 * b + 1461 * q + 365 * k + doy) - 719468 := by
     unfold daysFromCivil
-    simp only [hy', hera, hyoe, hmp, hdoy]
+    simp only [← hy', ← hera, ← hmp, ← hdoy]
+    have hY4 : (100 * b + 4 * q + k) / 4 = 25 * b + q := by omega
+    have hY100 : (100 * b + 4 * q + k) / 100 = b := by omega
+    rw [hyd, hY4, hY100]
     omega
-  have hyf := yoe_formula b q k doy hb hq hk hdb hdl
-  rw [hdays]
-  unfold civilFromDays
-  simp only
+  have hyf : yoeOf (36524 * b + 1461 * q + 365 * k + doy) = 100 * b + 4 * q + k :=
+    yoe_formula b q k doy hb hq hk hdb hdl
   have e1 : (era * 146097 + (36524 * b + 1461 * q + 365 * k + doy) - 719468 + 719468) / 146097 = era := by omega
   have e2 : era * 146097 + (36524 * b + 1461 * q + 365 * k + doy) - 719468 + 719468 - era * 146097 =
       36524 * b + 1461 * q + 365 * k + doy := by omega
-  rw [e1, e2, hyf]
+  have hY4 : (100 * b + 4 * q + k) / 4 = 25 * b + q := by omega
+  have hY100 : (100 * b + 4 * q + k) / 100 = b := by omega
   have e3 : 36524 * b + 1461 * q + 365 * k + doy -
-      (365 * (100 * b + 4 * q + k) + (100 * b + 4 * q + k) / 4 - (100 * b + 4 * q + k) / 100) = doy := by omega
-  rw [e3, hmpe]
-  rcases hmpc with h | h | h | h | h | h | h | h | h | h | h | h <;> subst h <;> simp only [] <;>
-    (ext <;> simp only [] <;> omega)
+      (365 * (100 * b + 4 * q + k) + (100 * b + 4 * q + k) / 4 - (100 * b + 4 * q + k) / 100) = doy := by
+    rw [hY4, hY100]; omega
+  rw [hdays, civilFromDays_eq, e1, e2, hyf, e3]
+  unfold civilOf
+  rw [hmpe]
+  rcases hmv with h | h | h | h | h | h | h | h | h | h | h | h <;> subst h <;> simp at hy' hmp ⊢ <;> omega
 
 end WktJson
